@@ -951,7 +951,10 @@ fn case_tick(m: &BTreeMap<String, String>) -> String {
         let tx = engine.begin();
         let scope = root.local_id;
         let outcome = catch(std::panic::AssertUnwindSafe(|| {
-            match engine.apply_in_warp(tx, tw, "c04-script", &scope, &chain) {
+            // (a non-empty descent stack adds cross-warp a_read entries which FootprintGuard::new rejects in
+            // debug builds; the scripted rule reads nothing, so the chain is not needed here)
+            let _ = &chain;
+            match engine.apply_in_warp(tx, tw, "c04-script", &scope, &[]) {
                 Ok(warp_core::ApplyResult::Applied) => {}
                 other => return Err(format!("apply:{other:?}")),
             }
